@@ -363,8 +363,19 @@ func logqlIdentSite(name, tmpl string, get func(*logql_parser.LogQLScript) strin
 	}}
 }
 
+// the TraceQL request of the site run last (emitted with the case and with its baseline: the TraceQL tree-level tie of
+// checks/c10.py re-plans both through C11's harness traceql, which dumps the SQL object tree)
+type tqReq struct {
+	Q    string `json:"q"` // hex
+	Mode string `json:"mode"`
+	Key  string `json:"key"` // hex
+}
+
+var lastTq *tqReq
+
 // ---- TraceQL: exported planners of clickhouse_transpiler
 func runTraceql(q string, which string, key string, cluster bool) ([]string, string) {
+	lastTq = &tqReq{Q: hx.Hex(q), Mode: which, Key: hx.Hex(key)}
 	script, err := traceql_parser.Parse(q)
 	if err != nil {
 		return nil, "parse: " + short(err)
@@ -591,6 +602,43 @@ func sites() []site {
 	s = append(s, traceqlSite("traceql.eval", `{.foo=%s}`, "eval", false))
 	s = append(s, traceqlSite("traceql.tagsv2", `{.foo=%s}`, "tags", false))
 	s = append(s, traceqlSite("traceql.valuesv2.q", `{.foo=~%s}`, "values", false))
+	// round 3: more shapes (or, nested parentheses, chains of selectors, aggregators, tags/values planners)
+	s = append(s, traceqlSite("traceql.or", `{.foo=%s || .bar="x"}`, "plan", false))
+	s = append(s, traceqlSite("traceql.nested", `{(.a="1" || .foo!=%s) && resource.b=~"z.*"}`, "plan", false))
+	s = append(s, traceqlSite("traceql.re.agg", `{span.foo=~%s && .n > 5} | avg(.lat) > 1`, "plan", false))
+	s = append(s, traceqlSite("traceql.chain", `{.a=%s} || {.b="y"} && {.c=~"z"}`, "plan", false))
+	s = append(s, traceqlSite("traceql.agg.dur", `{name=%s} | max(duration) > 1s`, "plan", false))
+	s = append(s, traceqlSite("traceql.tags.re", `{.foo!~%s}`, "tags", false))
+	s = append(s, traceqlSite("traceql.values.eq", `{resource.foo=%s && .bar!="y"}`, "values", false))
+	for _, t := range []struct{ name, tmpl, which string }{
+		{"traceql.ident.agg", `{.foo="x"} | avg(.%s) > 1`, "plan"},
+		{"traceql.ident.span", `{span.%s="x"}`, "plan"},
+		{"traceql.ident.resource.re", `{resource.%s=~"x"}`, "values"},
+	} {
+		t := t
+		s = append(s, site{name: t.name, run: func(v string) res {
+			q := fmt.Sprintf(t.tmpl, v)
+			script, err := traceql_parser.Parse(q)
+			if err != nil {
+				return rejected("parse: " + short(err))
+			}
+			ok := false
+			hx.Catch(func() {
+				h := script.Head.AttrSelector
+				lbl := h.Head.Label
+				if script.Head.Aggregator != nil {
+					lbl = script.Head.Aggregator.Attr
+				}
+				k := strings.Index(lbl, ".")
+				ok = script.Tail == nil && h.Tail == nil && k >= 0 && lbl[k+1:] == v && h.Head.Val.StrVal != nil && h.Head.Val.StrVal.Str == `"x"`
+			})
+			if !ok {
+				return rejected("not read as this identifier")
+			}
+			sqls, rej := runTraceql(q, t.which, "k", false)
+			return plain(sqls, v, rej)
+		}})
+	}
 	s = append(s, site{name: "traceql.valuesv2.key", run: func(v string) res {
 		sqls, rej := runTraceql(`{.foo="x"}`, "values", v, false)
 		return plain(sqls, v, rej)
@@ -864,6 +912,7 @@ type baseRec struct {
 	Marker string `json:"marker"` // hex
 	Sql    string `json:"sql"`    // hex
 	Mode   string `json:"mode"`
+	Tq     *tqReq `json:"tq,omitempty"`
 }
 type caseRec struct {
 	Kind  string `json:"kind"`
@@ -879,6 +928,7 @@ type caseRec struct {
 	Rej   string `json:"rej,omitempty"`
 	Logql string `json:"logql,omitempty"` // hex: the LogQL request text (first statement of a LogQL site only)
 	Clu   bool   `json:"cluster,omitempty"`
+	Tq    *tqReq `json:"tq,omitempty"` // the TraceQL request (TraceQL planner sites only)
 }
 
 type runner struct {
@@ -894,9 +944,11 @@ func (rn *runner) baseFor(st site, mk, mklit string, stmt int, nstmts int) int {
 		return b
 	}
 	var r res
+	lastTq = nil
 	if p := hx.Catch(func() { r = st.run(mk) }); p != "" {
 		r.rej = "panic: " + p
 	}
+	btq := lastTq
 	if r.rej != "" || len(r.sqls) != nstmts {
 		rn.bases[key] = -1
 		return -1
@@ -904,7 +956,7 @@ func (rn *runner) baseFor(st site, mk, mklit string, stmt int, nstmts int) int {
 	for i, q := range r.sqls {
 		k := fmt.Sprintf("%s|%s|%d", st.name, mk, i)
 		rn.bases[k] = rn.nbase
-		rn.out.Put(baseRec{Kind: "base", Bid: rn.nbase, Site: st.name, Marker: hx.Hex(mklit), Sql: hx.Hex(q), Mode: r.mode})
+		rn.out.Put(baseRec{Kind: "base", Bid: rn.nbase, Site: st.name, Marker: hx.Hex(mklit), Sql: hx.Hex(q), Mode: r.mode, Tq: btq})
 		rn.nbase++
 	}
 	return rn.bases[key]
@@ -913,11 +965,13 @@ func (rn *runner) baseFor(st site, mk, mklit string, stmt int, nstmts int) int {
 func (rn *runner) one(st site, v, class string) {
 	var r res
 	lastLogql.q = ""
+	lastTq = nil
 	p := hx.Catch(func() { r = st.run(v) })
 	if p != "" {
 		r.rej = "panic: " + p
 	}
 	req, reqCluster := lastLogql.q, lastLogql.cluster
+	ctq := lastTq
 	if r.rej != "" || len(r.sqls) == 0 {
 		rn.id++
 		rn.out.Put(caseRec{Kind: "rej", ID: rn.id, Site: st.name, Class: class, Val: hx.Hex(v), Rej: r.rej})
@@ -936,6 +990,9 @@ func (rn *runner) one(st site, v, class string) {
 		}
 		if i == 0 && req != "" {
 			c.Logql, c.Clu = hx.Hex(req), reqCluster
+		}
+		if i == 0 {
+			c.Tq = ctq
 		}
 		rn.out.Put(c)
 	}
